@@ -133,6 +133,8 @@ func (tc *TrCtx) resolveType(te *TypeExpr) types.Type {
 		return types.NewSlice(tc.resolveType(te.Elem))
 	case "map":
 		return types.NewMap(tc.resolveType(te.Key), tc.resolveType(te.Elem))
+	case "emptystruct":
+		return types.NewStruct(nil, nil)
 	}
 	if te.Pkg == "" {
 		switch te.Name {
